@@ -63,7 +63,12 @@ RULE = ("Tag multisets of size <= 3 (quick) / <= 4 (thorough; size 5 with plain 
         "behave.tag_matcher; each matcher answers 55 tag lists (37 tags written with the separators = : - and the "
         "markers .with_ / .if_) when built and again after all later constructions: verdicts follow the formula with "
         "the variant's own resolved prefixes/separator/schema and tag_pattern equals that of the variant constructed "
-        "alone. Shipped providers: "
+        "alone. Composite matchers in one process: every sequence of 1-2 (and 3; quick: 3 of the 6 member sets) "
+        "CompositeTagMatcher constructions over {members passed as a list, argument omitted, None, empty list} x member "
+        "sets {none, a=1, a=2, b=x, (a=2, b=y), a predicate matcher}, the members of the last three build kinds appended "
+        "through the public .tag_matchers list either right after each construction or after all were built; each "
+        "composite answers 11 tag lists when filled and at the end: it excludes iff one of its OWN members excludes, "
+        "len(.tag_matchers) is its own member count, an empty composite never excludes. Shipped providers: "
         "multisets <= 2 (<= 3) over ~100 tags (every category of behave.active_tag.python and .python_feature x "
         "prefixes x matching/non-matching/malformed values, versions below/equal/above the running interpreter) x "
         "{python dict, python_feature dict, ActiveTagValueProvider(python), Composite(python, python_feature)}, expected "
@@ -1158,6 +1163,130 @@ def check_construction_history(history):
             "dg": [(nm, f, l) for nm, f, l in obs], "n": n}
 
 
+# ---- composite tag matchers in one process ----------------------------------------------------------------
+# Two or three CompositeTagMatcher objects are built (members given as a list, argument omitted, None, or an empty
+# list) and filled through the public .tag_matchers list.  A composite excludes iff one of ITS OWN members excludes;
+# its member list is its own; an empty composite never excludes - whatever other composites exist.  Private fresh
+# copy of behave.tag_matcher per history.
+CM_BUILDS = ("explicit-list", "argument-omitted", "None", "empty-list")
+CM_MEMBERS = ((), ("a=1",), ("a=2",), ("b=x",), ("a=2", "b=y"), ("foo",))
+CM_MEMBERS_SMALL = (0, 1, 4)
+CM_QUERIES = ((), ("use.with_a=1",), ("use.with_a=2",), ("not.with_a=1",), ("use.with_b=x",), ("use.with_b=y",),
+              ("not.with_b=x",), ("foo",), ("use.with_a=1", "use.with_b=x"), ("use.with_a=2", "not.with_b=y"),
+              ("use.with_zz=1", "bar"))
+
+
+def cm_member(M, spec):
+    if spec == "foo":
+        return M.PredicateTagMatcher(lambda tags: "foo" in tags)
+    cat, val = spec.split("=")
+    return M.ActiveTagMatcher({cat: val})
+
+
+def cm_member_ref(spec, tags):
+    if spec == "foo":
+        return "foo" in tags
+    cat, val = spec.split("=")
+    return ref_exclude(tags, {cat: (lambda tv, val=val: tv == val)})
+
+
+def cm_observe(c):
+    try:
+        count = len(c.tag_matchers)
+    except Exception as ex:
+        count = "EXC:%s" % type(ex).__name__
+    return count, tuple(query(c, q) for q in CM_QUERIES)
+
+
+def cm_play(history, fill_late):
+    """history: ((build kind, member-set index), ...) -> [(observation when built+filled, observation at the end)]"""
+    M = fresh_tag_matcher_module()
+    comps, firsts, pending = [], [], []
+    for build, mi in history:
+        specs = CM_MEMBERS[mi]
+        if build == "explicit-list":
+            c = M.CompositeTagMatcher([cm_member(M, sp) for sp in specs])
+            specs = ()
+        elif build == "argument-omitted":
+            c = M.CompositeTagMatcher()
+        elif build == "None":
+            c = M.CompositeTagMatcher(None)
+        else:
+            c = M.CompositeTagMatcher([])
+        comps.append(c)
+        if fill_late:
+            pending.append((c, specs))
+            firsts.append(None)
+        else:
+            for sp in specs:
+                c.tag_matchers.append(cm_member(M, sp))
+            firsts.append(cm_observe(c))
+    for c, specs in pending:
+        for sp in specs:
+            c.tag_matchers.append(cm_member(M, sp))
+    return [(f, cm_observe(c)) for f, c in zip(firsts, comps)]
+
+
+def cm_wrong(obs, mi):
+    """-> None or (kind, detail)"""
+    specs = CM_MEMBERS[mi]
+    count, answers = obs
+    if count != len(specs):
+        return "member-count", "len(.tag_matchers) = %r, its own members are %d" % (count, len(specs))
+    for q, g in zip(CM_QUERIES, answers):
+        want = any(cm_member_ref(sp, q) for sp in specs)
+        if g[0] == "EXC" or g[0] != want or g[1] != (not want):
+            return "verdict", "tags %r -> (exclude, run) = %r, its own members %r say exclude=%s" % (list(q), g, list(specs), want)
+    return None
+
+
+def cm_class(build):
+    return "argument-omitted-or-None" if build in ("argument-omitted", "None") else build
+
+
+def check_composite_history(case):
+    hist_idx, fill_late = case
+    history = tuple((CM_BUILDS[b], mi) for b, mi in hist_idx)
+    played = cm_play(history, fill_late)
+    v, obs, n = [], [], 0
+    for pos, ((build, mi), (first, last)) in enumerate(zip(history, played)):
+        obs.append((build, mi, first, last))
+        for moment, o in (("when built and filled", first), ("after all composites were built and filled", last)):
+            if o is None:
+                continue
+            n += len(CM_QUERIES)
+            w = cm_wrong(o, mi)
+            if w is None:
+                continue
+            alone = cm_wrong(cm_play(((build, mi),), fill_late)[0][1], mi)
+            if alone is not None:
+                d = {"subcheck": "composite-history", "clause": "formula", "built": cm_class(build)}
+                msg = "CompositeTagMatcher (%s, members %r) on its own: %s" % (build, list(CM_MEMBERS[mi]), alone[1])
+            else:
+                culprit = None
+                for opos, other in enumerate(history):
+                    if opos == pos:
+                        continue
+                    pair = (other, (build, mi)) if opos < pos else ((build, mi), other)
+                    k = 1 if opos < pos else 0
+                    res = cm_play(pair, fill_late)[k]
+                    if any(x is not None and cm_wrong(x, mi) for x in res):
+                        culprit = other
+                        break
+                d = {"subcheck": "composite-history",
+                     "clause": "member-list-shared-with-other-composite" if w[0] == "member-count"
+                     else "verdict-depends-on-other-composite",
+                     "built": cm_class(build), "other-built": cm_class(culprit[0]) if culprit else "combination"}
+                msg = ("composites built in one process %r (%s): composite #%d %s: %s%s"
+                       % ([(b, list(CM_MEMBERS[m])) for b, m in history],
+                          "all built, then filled" if fill_late else "each filled right after it was built", pos + 1,
+                          moment, w[1], " (already with only %r beside it)" % (culprit,) if culprit else ""))
+            v.append((d, msg))
+            break
+    nt = ("composite", case) if len(history) > 1 else None
+    return {"v": v, "nt": nt, "out": ("composite", tuple(o[3][0] for o in obs), obs[0][3][1][:4]), "dg": obs, "n": n}
+
+
 # ---- providers that look empty ---------------------------------------------------------------------------
 # Truthiness / len() of a provider says nothing about what it knows: a composite provider is a UserDict whose
 # own data is only the lookup cache.  Every tag multiset x every order of the two questions, fresh objects each time.
@@ -1351,6 +1480,8 @@ def run(ctx):
     ssize = 2 if ctx.quick else 3
     ntags = len(shipped_tags())
     ctx.bounds = {"multiset_size": size, "multiset_size_plain_strings": size if ctx.quick else 5,
+                  "composite_builds": list(CM_BUILDS), "composite_member_sets": [list(m) for m in CM_MEMBERS],
+                  "composite_history_length": "2 (all), 3 (%s)" % ("3 member sets" if ctx.quick else "all"),
                   "construction_history_variants": list(CH_NAMES), "construction_history_length": 3,
                   "time_varying_holders": list(TV_HOLDERS), "time_varying_sequence_lengths": [2, 3],
                   "time_varying_tag_multiset_size": 2 if ctx.quick else 3, "override_routes": list(OV_ROUTES), "override_values": list(OV_VALUES), "override_member_states": list(OV_MEMBER),
@@ -1380,6 +1511,17 @@ def run(ctx):
     ctx.sweep(check_corner, multisets(len(ALPHABET), size), chunk=16, name="providers that look empty x query order")
     ctx.sweep(check_construction_history, (h for k in (1, 2, 3) for h in itertools.product(range(len(CH_NAMES)), repeat=k)),
               chunk=8, name="construction histories of matcher variants")
+    cm_all = [(b, m) for b in range(len(CM_BUILDS)) for m in range(len(CM_MEMBERS))]
+    cm_small = [(b, m) for b in range(len(CM_BUILDS)) for m in CM_MEMBERS_SMALL]
+
+    def cm_cases():
+        for late in (0, 1):
+            for k in (1, 2):
+                for h in itertools.product(cm_all, repeat=k):
+                    yield (h, late)
+            for h in itertools.product(cm_small if ctx.quick else cm_all, repeat=3):
+                yield (h, late)
+    ctx.sweep(check_composite_history, cm_cases(), chunk=16, name="composite tag matchers built in one process")
     ctx.sweep(check_time_varying, ((h, t) for t in multisets(len(TV_ALPHABET), 2 if ctx.quick else 3) for h in TV_HOLDERS),
               chunk=4, name="time-varying sources, one long-lived matcher")
     ctx.sweep(check_override, ((r, ms, lu, t) for t in multisets(len(OV_ALPHABET), 2 if ctx.quick else 3)
@@ -1395,6 +1537,9 @@ def run(ctx):
     ctx.guard(sum(1 for k in ctx.nt if k[0] == "main") > 5000,
               "at least 5000 distinct (multiset, assignment) with an active tag of a known category")
     ctx.guard(sum(1 for k in ctx.nt if k[0] == "bool") > 500, "at least 500 non-trivial boolean cases")
+    ctx.guard(sum(1 for k in ctx.nt if k[0] == "composite") > 2000, "at least 2000 histories with several composite matchers")
+    cmo = [k for k in ctx.outcomes if k[0] == "composite"]
+    ctx.guard(any(0 in k[1] and any(c for c in k[1]) for k in cmo), "an empty composite beside a non-empty one was observed")
     ctx.guard(sum(1 for k in ctx.nt if k[0] == "construct") > 500, "at least 500 construction histories over different variants")
     refs = dict((nm, ch_reference(nm)) for nm in CH_NAMES)
     ctx.guard(len(set(refs.values())) >= 6 and all(any(r) and not all(r) for r in refs.values()),
